@@ -108,6 +108,114 @@ theorem c17_cli_env (cmd : CliCmd) (hc : cmd ≠ .lint) (strict : Bool) (verdict
     cliStatus cmd strict false verdicts n = EXIT_ENV := by
   cases cmd <;> simp_all [cliStatus]
 
+
+/-! ### parser dispatch: one text, one parser — on every delivery path
+
+  `parsePolicyText` is the ONE function every delivery path calls (cli.py and FilePolicySource with the file name as the only hint,
+  HTTPPolicySource with URL and Content-Type, S3PolicySource through `parsePolicyBytes` with the key: checked syntactically on every
+  run, harness/extractors/src_translation_cli.py `delivery`).  The parsers are oracles; what is proved is WHICH one is consulted. -/
+
+/-- the text is handed to exactly the parser `detectFormat` names: the JSON oracle's outcome as it is, or the YAML oracle's
+    outcome with an empty document read as `{}` and anything but a mapping rejected -/
+theorem c17_parse_dispatch (P : Parsers) (text : PyVal) (fmt ct fn : Option String) :
+    (detectFormat fmt ct fn = .json → parsePolicyText P text fmt ct fn = P.jsonLoads text) ∧
+    (detectFormat fmt ct fn = .yaml → parsePolicyText P text fmt ct fn = parseYaml P text) ∧
+    (∀ (fmt' ct' fn' : Option String), detectFormat fmt' ct' fn' = detectFormat fmt ct fn →
+      parsePolicyText P text fmt' ct' fn' = parsePolicyText P text fmt ct fn) ∧
+    (∀ (decode : PyVal → PyVal → PyX.Res) (data enc : PyVal), decode data enc = .ok text →
+      parsePolicyBytes P decode data enc fmt ct fn = parsePolicyText P text fmt ct fn) := by
+  refine ⟨fun h => by simp [parsePolicyText, h], fun h => by simp [parsePolicyText, h], fun f c n h => by simp [parsePolicyText, h],
+    fun decode data enc h => by simp [parsePolicyBytes, h]⟩
+
+/-- YAML: `None` (an empty document) is the empty policy, a mapping is itself, any other value is a ValueError, a failed import an
+    ImportError; the oracle's own exceptions pass -/
+theorem c17_parse_yaml (P : Parsers) (text : PyVal) (m : PyVal) (hi : P.importYaml = .ok m) :
+    (P.yamlSafeLoad text = .ok PyVal.none → parseYaml P text = .ok (.dict [])) ∧
+    (∀ kvs, P.yamlSafeLoad text = .ok (.dict kvs) → parseYaml P text = .ok (.dict kvs)) ∧
+    (∀ v, P.yamlSafeLoad text = .ok v → v.isNone = false → v.isDict = false → ∃ e, parseYaml P text = .error e ∧ e.cls = "ValueError") ∧
+    (∀ e, P.yamlSafeLoad text = .error e → parseYaml P text = .error e) := by
+  refine ⟨fun h => by simp [parseYaml, hi, h], fun kvs h => by simp [parseYaml, hi, h], fun v h hn hd => ?_, fun e h => by simp [parseYaml, hi, h]⟩
+  cases v <;> simp_all [parseYaml, PyVal.isNone, PyVal.isDict]
+
+/-! ### the command functions, outcome by outcome (`cliRun`) against the status function (`cliStatus`) -/
+
+/-- the verdicts `cliVerdicts` reports are the validator's outcomes, value by value, when no exception escapes -/
+theorem cliVerdicts_ok (validate : PyVal → PyX.Res) (ds : List PyVal)
+    (h : ∀ d ∈ ds, ∀ e, validate d = .error e → escapesValidation e = false) :
+    cliVerdicts validate ds = .ok (ds.map fun d => (validate d).toBool) := by
+  induction ds with
+  | nil => rfl
+  | cons d ds ih =>
+    have ih' := ih (fun d' hd' => h d' (List.mem_cons_of_mem _ hd'))
+    simp only [cliVerdicts, ih', List.map_cons]
+    cases hv : validate d with
+    | ok v => rfl
+    | error e => simp [h d (List.mem_cons_self) e hv, Except.toBool]
+
+/-- `validate` / `check` / `lint` return exactly `cliStatus` of the verdicts: when the input loads, the validated values are `ds`,
+    no exception of the validator escapes (none is a RuntimeError or outside `Exception`), and the linter returns the list `issues` -/
+theorem c17_cli_run_status (cmd : CliCmd) (w : CliWorld) (strict policyset : Bool) (path : Option String) (reqArg req doc : PyVal)
+    (ds issues : List PyVal)
+    (hreq : w.parseRequireAttrs reqArg = .ok req) (hload : cliLoad w path = .ok doc) (hds : cliValidated policyset doc = .ok ds)
+    (hval : ∀ d ∈ ds, ∀ e, w.validate d = .error e → escapesValidation e = false)
+    (hlint : (if policyset then w.lintSet doc req else w.lintPolicy doc req) = .ok (.list issues)) :
+    cliRun cmd w strict policyset path reqArg =
+      .ok (cliStatus cmd strict true (ds.map fun d => (w.validate d).toBool) issues.length) := by
+  have hv := cliVerdicts_ok w.validate ds hval
+  have hl : cliLintPhase w strict policyset doc req = .ok (if strict && issues.length != 0 then EXIT_LINT_ERRORS else EXIT_OK) := by
+    simp only [cliLintPhase, hlint, PyX.iterE, Py.iter]
+    cases issues <;> simp
+  cases cmd with
+  | lint => simp [cliRun, hreq, hload, hl, cliStatus]
+  | validate => simp [cliRun, cliLoadValidate, hload, cliValidatePhase, hds, hv, cliStatus]
+  | check =>
+    simp only [cliRun, hreq, hload, cliValidatePhase, hds, hv, cliStatus, hl]
+    by_cases ha : (List.map (fun d => (w.validate d).toBool) ds).all id = true <;> simp [ha]
+
+/-- the environment status: a RuntimeError of the validator (jsonschema missing) on the first value that does not validate cleanly
+    is EXIT_ENV for `validate` and `check` — but with `--policyset` and NO child nothing is validated and the status is that of an
+    empty verdict list (where the coarser `cliStatus … false …` says EXIT_ENV) -/
+theorem c17_cli_run_env (w : CliWorld) (strict policyset : Bool) (path : Option String) (reqArg req doc d : PyVal) (ds : List PyVal)
+    (e : PyX.Exc) (hreq : w.parseRequireAttrs reqArg = .ok req) (hload : cliLoad w path = .ok doc)
+    (hds : cliValidated policyset doc = .ok (d :: ds)) (he : w.validate d = .error e) (hr : PyX.isSubclass e.cls "RuntimeError" = true) :
+    cliRun .validate w strict policyset path reqArg = .ok EXIT_ENV ∧ cliRun .check w strict policyset path reqArg = .ok EXIT_ENV := by
+  have hv : cliVerdicts w.validate (d :: ds) = .error e := by simp [cliVerdicts, he, escapesValidation, hr]
+  constructor <;> simp [cliRun, cliLoadValidate, hreq, hload, cliValidatePhase, hds, hv, hr]
+
+/-- an unreadable or unparsable input is an EXCEPTION that escapes `lint` and `check` (and `validate`, unless it is a RuntimeError):
+    no command function returns EXIT_IO -/
+theorem c17_cli_run_load_error (w : CliWorld) (strict policyset : Bool) (path : Option String) (reqArg req : PyVal) (e : PyX.Exc)
+    (hreq : w.parseRequireAttrs reqArg = .ok req) (hload : cliLoad w path = .error e) :
+    cliRun .lint w strict policyset path reqArg = .error e ∧ cliRun .check w strict policyset path reqArg = .error e ∧
+    cliRun .validate w strict policyset path reqArg = (if PyX.isSubclass e.cls "RuntimeError" then .ok EXIT_ENV else .error e) := by
+  simp [cliRun, cliLoadValidate, hreq, hload]
+
+/-! non-vacuity: a world in which a two-child set read from STDIN has one conforming and one non-conforming child -/
+def exampleWorld : CliWorld :=
+  { openRead := fun _ => .error { cls := "FileNotFoundError" }, stdinRead := .ok (.str "T"),
+    parsers := { jsonLoads := fun _ => .ok (.dict [("policies", .list [.int 1, .int 2])]), importYaml := .ok PyVal.none,
+                 yamlSafeLoad := fun _ => .ok PyVal.none },
+    parseRequireAttrs := fun _ => .ok (.dict []),
+    validate := fun d => if PyVal.pyEq d (.int 1) then .ok PyVal.none else .error { cls := "ValidationError" },
+    lintPolicy := fun _ _ => .ok (.list []), lintSet := fun _ _ => .ok (.list [.dict []]) }
+
+example : cliRun .validate exampleWorld false true Option.none PyVal.none = .ok EXIT_SCHEMA_ERRORS := by rfl
+example : cliRun .check exampleWorld true false Option.none PyVal.none = .ok EXIT_SCHEMA_ERRORS := by rfl
+example : cliRun .lint exampleWorld true true Option.none PyVal.none = .ok EXIT_LINT_ERRORS := by rfl
+example : cliRun .lint exampleWorld true true (some "p.json") PyVal.none = .error { cls := "FileNotFoundError" } := by rfl
+
+/-- `main` hands the command function's outcome through: its status (an `int`) is the process status, an exception that escapes
+    the command function escapes `main`; no subcommand is EXIT_USAGE -/
+theorem c17_cli_main (buildParser : PyX.Res) (parseArgs callFunc : PyVal → PyX.Res) (argv parser args : PyVal)
+    (hb : buildParser = .ok parser) (hp : parseArgs argv = .ok args) :
+    (PyX.hasattr args "func" = false → cliMain buildParser parseArgs callFunc argv = .ok (.int EXIT_USAGE)) ∧
+    (PyX.hasattr args "func" = true →
+      (∀ r : Except PyX.Exc Nat, callFunc args = encExit r → cliMain buildParser parseArgs callFunc argv = encExit r)) := by
+  refine ⟨fun h => by simp [cliMain, hb, hp, h], fun h r hr => ?_⟩
+  cases r with
+  | error e => simp [cliMain, hb, hp, h, hr, encExit]
+  | ok n => simp [cliMain, hb, hp, h, hr, encExit, PyX.intE]
+
 /-! ### the default combining algorithm -/
 
 /-- every evaluation path and the linter default to deny-overrides -/
